@@ -102,11 +102,12 @@ struct Work {
 	const char *name() const
 	{
 		static const char *n[] = {"parse", "parse_chunked", "build", "object_add", "array_ops", "set_string", "deep_copy", "serialize",
-		                          "reserialize", "pointer_set", "pointer_getf", "patch_inplace", "patch_copy_from", "from_fd", "double_format", "tokener_new", "parse_verbose"};
+		                          "reserialize", "pointer_set", "pointer_getf", "patch_inplace", "patch_copy_from", "from_fd", "double_format", "tokener_new", "parse_verbose",
+		                          "printbuf", "to_fd", "array_shrink", "constructors", "object_add_ex"};
 		return n[kind];
 	}
 };
-enum { W_PARSE, W_PARSE_CHUNKED, W_BUILD, W_OBJ_ADD, W_ARR, W_SETSTR, W_COPY, W_SER, W_RESER, W_PTRSET, W_GETF, W_PATCH, W_PATCHCOPY, W_FROMFD, W_DBLFMT, W_TOKNEW, W_PARSEV, W_NKINDS };
+enum { W_PARSE, W_PARSE_CHUNKED, W_BUILD, W_OBJ_ADD, W_ARR, W_SETSTR, W_COPY, W_SER, W_RESER, W_PTRSET, W_GETF, W_PATCH, W_PATCHCOPY, W_FROMFD, W_DBLFMT, W_TOKNEW, W_PARSEV, W_PRINTBUF, W_TOFD, W_SHRINK, W_CTORS, W_ADDEX, W_NKINDS };
 
 // One execution of the workload with allocation call k (and k2) failing; k = -1: fault-free.
 // Everything created here is released before returning (the caller checks the live-allocation delta).
@@ -441,6 +442,152 @@ static Res execute(Ctx &ctx, const Work &w, long k, long k2, long &ncalls)
 		json_object_put(o);
 		break;
 	}
+	case W_PRINTBUF: {
+		// direct print-buffer use: a failed operation returns -1 and leaves the contents as they were
+		arm();
+		printbuf *pb = printbuf_new();
+		if (!pb)
+		{
+			disarm();
+			r.failed = true;
+			r.out = "printbuf_new returned NULL";
+			break;
+		}
+		std::string model;
+		bool any_fail = false;
+		for (size_t i = 0; i < w.n; i++)
+		{
+			std::string piece((size_t)(7 + 13 * i) % 90 + (i == 2 ? w.n2 : 0), (char)('a' + i));
+			int rc;
+			if (i % 3 == 2)
+				rc = sprintbuf(pb, "%s|%d", piece.c_str(), (int)i);
+			else if (i % 3 == 1)
+				rc = printbuf_memset(pb, -1, 'z', (int)piece.size()) == 0 ? (int)piece.size() : -1;
+			else
+				rc = printbuf_memappend(pb, piece.data(), (int)piece.size());
+			if (rc < 0)
+				any_fail = true;
+			else if (i % 3 == 2)
+				model += piece + "|" + str(i);
+			else if (i % 3 == 1)
+				model += std::string(piece.size(), 'z');
+			else
+				model += piece;
+			if ((size_t)pb->bpos != model.size() || memcmp(pb->buf, model.data(), model.size()) != 0)
+			{
+				disarm();
+				ctx.fail("altered", "print buffer contents differ from the model after a " + std::string(rc < 0 ? "failed" : "successful") + " operation under an allocation fault");
+			}
+		}
+		disarm();
+		r.failed = any_fail;
+		r.out = any_fail ? "a printbuf operation returned -1" : model;
+		printbuf_free(pb);
+		break;
+	}
+	case W_TOFD: {
+		json_object *j = w.text.empty() ? build(w.tree) : json_tokener_parse(w.text.c_str());
+		int fd = memfd_create("c08w", 0);
+		if (!j || fd < 0)
+		{
+			json_object_put(j);
+			if (fd >= 0)
+				close(fd);
+			r.out = "skip";
+			ncalls = 0;
+			break;
+		}
+		arm();
+		int rc = json_object_to_fd(fd, j, w.flags);
+		disarm();
+		std::string got;
+		char buf[4096];
+		lseek(fd, 0, SEEK_SET);
+		ssize_t n;
+		while ((n = read(fd, buf, sizeof buf)) > 0)
+			got.append(buf, (size_t)n);
+		close(fd);
+		if (rc != 0)
+		{
+			r.failed = true;
+			r.out = "to_fd returned " + str(rc);
+			if (!got.empty())
+				ctx.fail("partial-result", "json_object_to_fd failed under an allocation fault but wrote " + str(got.size()) + " bytes");
+		}
+		else
+			r.out = got;
+		json_object_put(j);
+		break;
+	}
+	case W_SHRINK: {
+		json_object *arr = build(w.tree);
+		std::string before = canon(arr);
+		arm();
+		int rc = json_object_array_shrink(arr, (int)w.n);
+		disarm();
+		if (rc != 0)
+		{
+			r.failed = true;
+			r.out = "shrink returned " + str(rc);
+		}
+		else
+			r.out = "ok";
+		if (canon(arr) != before)
+			ctx.fail("altered", "array_shrink under an allocation fault changed the contents");
+		for (int i = 0; i < 5; i++)
+			json_object_array_add(arr, json_object_new_int(i));
+		json_object_put(arr);
+		break;
+	}
+	case W_CTORS: {
+		// every constructor: NULL on failure, nothing left behind
+		arm();
+		json_object *o[8];
+		o[0] = json_object_new_object();
+		o[1] = json_object_new_array_ext((int)w.n);
+		o[2] = json_object_new_string_len(w.text.data(), (int)w.text.size());
+		o[3] = json_object_new_double_s(1.5, "1.50");
+		o[4] = json_object_new_int64(-5);
+		o[5] = json_object_new_uint64(5);
+		o[6] = json_object_new_boolean(1);
+		o[7] = json_object_new_double(2.25);
+		disarm();
+		bool anynull = false;
+		std::string all;
+		for (auto x : o)
+		{
+			if (!x)
+				anynull = true;
+			else
+				all += std::string(json_object_to_json_string_ext(x, 0)) + ";";
+			json_object_put(x);
+		}
+		r.failed = anynull;
+		r.out = anynull ? "a constructor returned NULL" : all;
+		break;
+	}
+	case W_ADDEX: {
+		json_object *obj = build(w.tree);
+		json_object *val = build(w.tree2);
+		std::string before = canon(obj);
+		static char stable_key[64];
+		snprintf(stable_key, sizeof stable_key, "%s", w.key.substr(0, 60).c_str());
+		arm();
+		int rc = json_object_object_add_ex(obj, stable_key, val, (unsigned)w.flags);
+		disarm();
+		if (rc != 0)
+		{
+			r.failed = true;
+			r.out = "object_add_ex returned " + str(rc);
+			if (canon(obj) != before)
+				ctx.fail("altered", "failed object_add_ex changed the object");
+			json_object_put(val);
+		}
+		else
+			r.out = canon(obj);
+		json_object_put(obj);
+		break;
+	}
 	case W_DBLFMT: {
 		arm();
 		int rc = json_c_set_serialization_double_format(w.text.c_str(), w.flags & 1 ? JSON_C_OPTION_THREAD : JSON_C_OPTION_GLOBAL);
@@ -504,7 +651,7 @@ void run_case(Choices &c, Ctx &ctx)
 		}
 	}
 	else
-		w.kind = (int)c.pick({14, 8, 10, 10, 10, 5, 8, 10, 5, 6, 3, 6, 4, 4, 2, 2, 3});
+		w.kind = (int)c.pick({14, 8, 10, 10, 10, 5, 8, 10, 5, 6, 3, 6, 4, 4, 2, 2, 3, 5, 4, 3, 3, 4});
 	switch (literal ? -1 : w.kind)
 	{
 	case W_PARSE:
@@ -514,11 +661,54 @@ void run_case(Choices &c, Ctx &ctx)
 		w.text = valid_text(c, 3 + c.len(25));
 		if (c.coin(15))
 			w.text = "{\"a\":[1,2,{\"b\":\"" + std::string(c.range(0, 200), 'x') + "\"}],\"cc\":1.5e3,\"d\":[[[]]]}";
+		else if (c.coin(20))
+		{
+			// escapes placed around the 32/64/128-byte growth points of the tokener's scratch buffer
+			static const char *esc[] = {"\\ud83d\\ude00", "\\u00e4", "\\n", "\\u20ac", "\\ud800", "\\udc00x", "\\\\"};
+			std::string body(c.range(20, 36), 'f');
+			for (size_t i = 0, n = 1 + c.pickn(5); i < n; i++)
+				body += esc[c.pickn(7)] + std::string(c.range(0, 30), 'g');
+			w.text = c.coin(50) ? "[\"" + body + "\"]" : "{\"" + body + "\":\"" + body + "\"}";
+		}
 		if (w.kind == W_PARSE_CHUNKED)
 			for (size_t i = 0, n = 1 + c.pickn(3); i < n; i++)
 				w.cuts.push_back(1 + c.pickn(w.text.size()));
 		std::sort(w.cuts.begin(), w.cuts.end());
 		break;
+	case W_PRINTBUF:
+		w.n = 2 + c.pickn(8);
+		w.n2 = c.coin(50) ? c.range(100, 400) : 0; // a >=128-byte sprintbuf goes through vasprintf
+		break;
+	case W_TOFD:
+		if (c.coin(50))
+			w.text = valid_text(c, 3 + c.len(20));
+		else
+			w.tree = some_tree(c, 3 + c.len(20), true);
+		w.flags = (int)c.range(0, 31);
+		break;
+	case W_SHRINK: {
+		size_t n = (size_t)c.range(0, 40);
+		w.tree = Val::arr();
+		for (size_t i = 0; i < n; i++)
+			w.tree.a.push_back(Val::i64((int64_t)i));
+		w.n = c.range(0, 5);
+		break;
+	}
+	case W_CTORS:
+		w.n = c.range(0, 64);
+		w.text = std::string(c.range(0, 200), 's');
+		break;
+	case W_ADDEX: {
+		size_t n = c.coin(50) ? (size_t)c.range(0, 12) : (size_t)c.range(10, 50);
+		w.tree = Val::obj();
+		for (size_t i = 0; i < n; i++)
+			w.tree.set("k" + str(i), Val::i64((int64_t)i));
+		bool isnew = !(c.coin(25) && n);
+		w.key = isnew ? "new-key-" + str(c.range(0, 9)) : "k" + str(c.pickn(n));
+		w.flags = (isnew && c.coin(50) ? JSON_C_OBJECT_ADD_KEY_IS_NEW : 0) | (c.coin(50) ? JSON_C_OBJECT_ADD_CONSTANT_KEY : 0);
+		w.tree2 = some_tree(c, 3, false);
+		break;
+	}
 	case W_TOKNEW:
 		w.n = c.range(1, 40);
 		w.text = "[1,{\"a\":null}]";
@@ -642,7 +832,7 @@ void run_case(Choices &c, Ctx &ctx)
 		if (!r.failed && r.out != ref.out)
 		{
 			// known finding: serialisers ignore print-buffer growth failures (realloc in printbuf_extend) and return truncated text as success
-			if (ctx.kf("serializer-truncates-on-oom") && (w.kind == W_SER || w.kind == W_RESER) && site == "realloc")
+			if (ctx.kf("serializer-truncates-on-oom") && (w.kind == W_SER || w.kind == W_RESER || w.kind == W_TOFD) && site == "realloc")
 			{
 				ctx.excluded("serializer-truncates-on-oom");
 				known_trunc = true;
@@ -669,7 +859,7 @@ void run_case(Choices &c, Ctx &ctx)
 			long n2 = 0;
 			Res r = execute(ctx, w, std::min(k1, k2), std::max(k1, k2), n2);
 			std::string at = "allocations #" + str(std::min(k1, k2)) + " and #" + str(std::max(k1, k2)) + " failed in workload " + wdesc;
-			if (!r.failed && r.out != ref.out && !(ctx.kf("serializer-truncates-on-oom") && (w.kind == W_SER || w.kind == W_RESER)))
+			if (!r.failed && r.out != ref.out && !(ctx.kf("serializer-truncates-on-oom") && (w.kind == W_SER || w.kind == W_RESER || w.kind == W_TOFD)))
 				ctx.fail(std::string("wrong-result-") + w.name(), "success with a wrong result under a double fault: " + quote(r.out, 200) + " | " + at);
 			leak.check(ctx, ("| " + at).c_str());
 			ctx.label("double_fault");
